@@ -218,6 +218,13 @@ Section Pieces.
     destruct (coin (o_amount x) <? m); [apply pres_lift | apply pres_ret].
   Qed.
 
+  (* add_output / fee_for_output first refuse a value with empty entries (Builder/Change.v output_acceptable) *)
+  Lemma pres_output_acceptable x : pres (output_acceptable orc x).
+  Proof.
+    unfold output_acceptable. destruct (Num.ValueNorm.value_has_empty_entries (o_amount x));
+      [apply pres_lift | apply pres_output_admissible].
+  Qed.
+
   Lemma pres_will_add v a p n q : pres (will_adding_asset_make_output_overflow orc v a p n q).
   Proof.
     unfold will_adding_asset_make_output_overflow.
@@ -269,7 +276,7 @@ Section Pieces.
   Lemma add_output_spec x u s s' (o o' : O) :
     add_output orc x s o = mkOut (Ok u) s' o' -> s' = set_s_outputs (s_outputs s ++ [x]) s.
   Proof.
-    unfold add_output. intros H. minv H. apply pres_output_admissible in H0. subst.
+    unfold add_output. intros H. minv H. apply pres_output_acceptable in H0. subst.
     apply modify_inv in H1 as (-> & _). reflexivity.
   Qed.
 
@@ -284,7 +291,7 @@ Section Pieces.
   Proof.
     unfold fee_for_output. intros H. minv H. apply get_inv in H0 as (-> & -> & ->).
     minv H1. apply askF_inv in H as (Hb & ->).
-    minv H0. apply pres_output_admissible in H. subst.
+    minv H0. apply pres_output_acceptable in H. subst.
     minv H1. apply askF_inv in H as (Ha & ->).
     apply lift_inv in H0 as (Hsub & -> & ->).
     cbn zeta. split; auto.
